@@ -118,6 +118,19 @@ class Spec:
                 if r:
                     return v + [(c + "-probe", "probe (poweroff cycle of %s) %r: %s" % (self.defs[i].name, ev, m))
                                 for c, m in r]
+        # ... and the same through the parent: a burst waiting in a managed child's queue must be forgotten when
+        # the *parent* is switched off (the child is switched off with it)
+        for i in [i for i in range(n) if W.model.trx[i].running]:
+            parents = [p for p in range(n) if p != i and i in W.model.group(p) and W.model.trx[p].running]
+            for p in parents[:1]:
+                script = [("burst", i, 2), ("ctrl", p, "POWEROFF"), ("tune", p), ("ctrl", p, "POWERON"), ("tick",)]
+                script += [("burst", j, 1) for j in range(n)] + [("tick",), ("tick",), ("tick",)]
+                for ev in script:
+                    r = self.step(W, ev)
+                    W.nprobe += 1
+                    if r:
+                        return v + [(c + "-probe", "probe (burst queued on %s, poweroff cycle of its parent %s) %r: %s"
+                                     % (self.defs[i].name, self.defs[p].name, ev, m)) for c, m in r]
         # a burst sent to a transceiver that is off must not be remembered: power it on afterwards and tick
         idle = [i for i in range(n) if not W.model.trx[i].running]
         for i in idle[:2]:
